@@ -2,7 +2,8 @@
 
  breaking variants : every seeded change under seeded/<id>/patch.diff is applied to a scratch copy; the property's own check
                      must exit 1 with a VIOLATION line (and must not end in ANALYSIS-ERROR);
- silent variants   : behaviour-preserving rewrites of the whole package; every check must still exit 0:
+ silent variants   : behaviour-preserving rewrites of the whole package, and the refactorings under silent/ (each written by an independent
+                     sub-agent and confirmed behaviour-preserving by the repository's tests and a behaviour digest); every check must still exit 0:
                        reformat   - every module re-emitted by ast.unparse (all comments, blank lines, line breaks and string
                                     quoting change; every line number moves),
                        rename     - a local variable renamed consistently in selected functions,
@@ -212,6 +213,20 @@ def main(a) -> int:
                 continue
             for c in checks:
                 tasks.append(("silent:" + name, c, repo, 0))
+        # behaviour-preserving refactorings written by independent sub-agents (silent/<id>/patch.diff): every check must stay silent
+        rdir = os.path.join(VERIF, "silent")
+        for rid in sorted(os.listdir(rdir)) if os.path.isdir(rdir) else []:
+            pd = os.path.join(rdir, rid, "patch.diff")
+            if not os.path.isfile(pd) or (only and "refactorings" not in only and rid not in only):
+                continue
+            repo = os.path.join(root, "refac_" + rid)
+            _copy_repo(repo)
+            r = subprocess.run(["patch", "-p1", "-s", "--no-backup-if-mismatch", "-i", pd], cwd=repo, capture_output=True, text=True)
+            if r.returncode:
+                failures.append(f"refactoring {rid}: patch does not apply to the current tree: {r.stdout[-200:]}")
+                continue
+            for c in checks:
+                tasks.append(("refactor:" + rid, c, repo, 0))
         # breaking variants
         sdir = os.path.join(VERIF, "seeded")
         for sid in sorted(os.listdir(sdir)):
